@@ -76,7 +76,8 @@ F3 == {Case("F3", "wrapped", <<F("c", C3, 0, 1), F("k", Prim("Integer"), 0, 1)>>
 \* (empty arrays have no spelling of their own in this notation: cases whose values hold one are left to the other protocols)
 \* (nor has an object none of whose members has a value)
 RECURSIVE NoEmpty(_)
-NoEmpty(v) == IF v = Nil THEN TRUE ELSE IF v[1] = "seq" THEN v[2] # <<>> /\ \A k \in 1..Len(v[2]) : NoEmpty(v[2][k])
+\* (the flat notation cannot spell an empty array, an object without members, or a nil ITEM of an array)
+NoEmpty(v) == IF v = Nil THEN TRUE ELSE IF v[1] = "seq" THEN v[2] # <<>> /\ \A k \in 1..Len(v[2]) : (v[2][k] # Nil /\ NoEmpty(v[2][k]))
               ELSE IF v[1] = "obj" THEN (\A k \in 1..Len(v[3]) : NoEmpty(v[3][k])) /\ (\E k \in 1..Len(v[3]) : v[3][k] # Nil) ELSE TRUE
 FlatCases == {c \in T1 \cup T2 \cup T3 \cup T4 \cup T5 \cup T7 \cup F3 : \A k \in 1..Len(c.vals) : NoEmpty(c.vals[k])}
 
